@@ -1260,13 +1260,14 @@ func c13Await(ioc *sonic.IO, vfd int, events int16, completed *int) string {
 // and still deliver its completion.
 func c13GC(c *vf.Case, ioc *sonic.IO) {
 	r := c.Rng
-	kinds := []string{"conn-read", "packet-conn-read", "udp-peer-read", "listener-accept", "timer", "conn-write"}
+	kinds := []string{"conn-read", "packet-conn-read", "udp-peer-read", "listener-accept", "timer", "conn-write", "conn-read-after-its-write-completed", "adapter-read-after-its-write-completed"}
 	for _, kind := range kinds {
 		if c.Failed() {
 			return
 		}
 		finalized := new(int32)
 		completed := 0
+		otherDone := 0
 		var gotN int
 		var gotErr error
 		var peerFd int = -1
@@ -1299,6 +1300,50 @@ func c13GC(c *vf.Case, ioc *sonic.IO) {
 					trigger = func() {}
 				}
 				ioc.Dispatched = saved
+			case "conn-read-after-its-write-completed", "adapter-read-after-its-write-completed":
+				// a read (nothing to read yet) and a write (deferred at the dispatch limit) are in flight on one object; the
+				// write completes at the next poll; the read is then the operation in flight that keeps its owner alive
+				lfd, port, _ := rawpeer.Listen4()
+				defer syscall.Close(lfd)
+				var fdo sonic.FileDescriptor
+				if kind[0] == 'c' {
+					cn, err := sonic.Dial(ioc, "tcp", rawpeer.AddrOf(port))
+					if err != nil {
+						c.Failf("harness-setup", "%v", err)
+						return
+					}
+					fdo = cn
+				} else {
+					nc, err := net.Dial("tcp", rawpeer.AddrOf(port))
+					if err != nil {
+						c.Failf("harness-setup", "%v", err)
+						return
+					}
+					var ad *sonic.AsyncAdapter
+					sonic.NewAsyncAdapter(ioc, nc.(*net.TCPConn), nc, func(e error, a *sonic.AsyncAdapter) { ad = a })
+					if ad == nil {
+						nc.Close()
+						c.Failf("harness-setup", "NewAsyncAdapter failed")
+						return
+					}
+					fdo = ad
+				}
+				pfd, _, _ := rawpeer.Accept(lfd)
+				peerFd = pfd
+				vfd = fdo.RawFd()
+				fdo.AsyncRead(make([]byte, 16), func(err error, n int) { completed++; gotN, gotErr = n, err; _ = sentinel.pad[0]; _ = fdo.Close() })
+				saved := ioc.Dispatched
+				ioc.Dispatched = sonic.MaxCallbackDispatch
+				fdo.AsyncWrite([]byte("written first"), func(err error, n int) { otherDone++ })
+				ioc.Dispatched = saved
+				for i := 0; i < 50 && otherDone == 0; i++ {
+					_, _ = ioc.PollOne()
+				}
+				if otherDone != 1 || completed != 0 {
+					c.Failf("harness-setup", "%s: the deferred write completed %d times, the read %d times before anything was sent", kind, otherDone, completed)
+					return
+				}
+				trigger = func() { _, _ = rawpeer.WriteSome(pfd, []byte("0123456789")) }
 			case "packet-conn-read":
 				p, err := sonic.NewPacketConn(ioc, "udp", "127.0.0.1:0")
 				if err != nil {
